@@ -224,6 +224,31 @@ def run(ctx):
     ctx.need("R05.2", "gate obligations", n2, 10)
     ctx.need("R05.5", "matrix cells", n5, 40)
 
+    # ---- R05.11: a callable that is streamed is CALLED - also a function object whose call operator is not const and that is printable as well. Which of
+    # the two operator<< families (lazy message / plain value) takes it is decided by a trait: a trait evaluated on `const T&` silently sends such objects
+    # down the value path, their printed form lands in the message and they are never invoked
+    ctx.rule("R05.11", "lazy-message probes (witness/facts_log.cpp, vwit::lazy_probes): for a printable function object with a non-const call operator, streamed as temporary or lvalue in both "
+                       "statement forms, the selected operator<< invokes its operand")
+    lp = [f for f in prog.find("vwit::lazy_probes") if f.has_cfg]
+    if ctx.anchor("R05.11", "vwit::lazy_probes", bool(lp)):
+        nprobe = 0
+        for bid, i, e in lp[0].roots():
+            x = ir.unwrap(e["expr"])
+            if not (isinstance(x, dict) and x.get("k") == "call" and x.get("op") == "<<" and (x.get("name") or "").startswith("nitro::log")):
+                continue
+            nprobe += 1
+            g = prog.fn(x.get("callee")) if x.get("callee") else None
+            if g is None or not g.has_cfg:
+                ctx.broken("R05.11", lp[0], "probe:%s" % fmt(x)[:50], "the selected operator<< is not in the facts", (lp[0], e.get("ln")))
+                continue
+            pn = g.params[-1]["name"] if g.params else "t"
+            invoked = any(isinstance(n, dict) and n.get("k") == "call" and n.get("op") == "()" and n.get("this") is not None and re.search(r"\b%s\b" % re.escape(pn), fmt(n["this"]))
+                          for _, _, e2 in g.all_elems() if isinstance(e2.get("expr"), dict) for n in walk(e2["expr"]))
+            ctx.check(invoked, "R05.11", lp[0], "probe-invokes-callable:%s" % fmt(x)[:50],
+                      "`%s` selects %s, which never calls its operand: the function object is printed through its own operator<< (or copied as a value) instead of being evaluated - "
+                      "the delivered message is not what the callable returns" % (fmt(x)[:60], g.id[:150]), (lp[0], e.get("ln")), why_ok=g.id[:90])
+        ctx.need("R05.11", "lazy-message probes", nprobe, 4)
+
     # ---- R05.4 combinators (patterns)
     lg = logic.Logic(prog, cg)
     def filt(name):
